@@ -156,7 +156,7 @@ def changed_value(obj, f, pool):
     return None
 
 
-def ops_for(obj, pool, msg_types):
+def ops_for(obj, pool, msg_types, passive=()):
     """(name, thunk) for every call of the alphabet that applies to obj."""
     import hpl.rewrite as R
     import hpl.ast as A
@@ -198,10 +198,10 @@ def ops_for(obj, pool, msg_types):
                 ('split_and', lambda: R.split_and(obj)), ('refactor_reference', lambda: R.refactor_reference(obj, 'A')),
                 ('replace_this_with_var', lambda: R.replace_this_with_var(obj, 'Z')), ('replace_var_with_this', lambda: R.replace_var_with_this(obj, 'A')),
                 ('event from predicate', lambda: A.HplSimpleEvent.publish('t', predicate=obj, alias='A'))]
-        for o in pool:
-            if type(o).__name__ in ('HplPredicateExpression', 'HplVacuousTruth', 'HplContradiction'):
-                ops.append(('join', lambda o=o: obj.join(o)))
-                break
+        partners = [o for o in pool if o is not obj and type(o).__name__ in ('HplPredicateExpression', 'HplVacuousTruth', 'HplContradiction')][:1]
+        for o in partners + list(passive):
+            ops.append(('join', lambda o=o: obj.join(o)))
+            ops.append(('join (reversed)', lambda o=o: o.join(obj)))
     if is_event:
         ops += [('aliases', lambda: obj.aliases()), ('simple_events', lambda: list(obj.simple_events())),
                 ('replace_var_reference', lambda: obj.replace_var_reference('S', A.HplThisMessage()))]
@@ -270,20 +270,26 @@ def explore(base, label, depth, r, msg_types):
         if all(o is not m for m in root_members):
             root_members.append(o)
     root_members = root_members[:14]
+    passive = []
+    if type(base).__name__ in ('HplPredicateExpression', 'HplVacuousTruth', 'HplContradiction'):
+        # partners for join(): the same names used at other (compatible and incompatible) types;
+        # they are snapshotted like every pool member but are not themselves targets of calls
+        for ptxt in ('{ x > 0 }', '{ p or @A.p }', '{ not x }', '{ y = x }'):
+            passive.append(impl.fresh_parser('pred').parse(ptxt))
     base.metadata['k'] = 'v'  # metadata is a mutable annotation by design; set before the first snapshot
     seen = set()
     frontier = [(root_members, ())]
     for d in range(depth):
         nxt = []
         for pool, hist in frontier:
-            before = [snap(o) for o in pool]
+            before = [snap(o) for o in pool + passive]
             key = frozenset(s[0] for s in before)
             if key in seen:
                 continue
             seen.add(key)
             r.count('states')
             for ti, target in enumerate(pool):
-                for name, thunk in ops_for(target, pool, msg_types):
+                for name, thunk in ops_for(target, pool, msg_types, passive):
                     r.count('transitions')
                     try:
                         res = thunk()
@@ -294,12 +300,12 @@ def explore(base, label, depth, r, msg_types):
                     except Exception as e:  # noqa: BLE001
                         r.outcomes[name.split('(')[0] + ':raised'] += 1
                         res = None
-                    after = [snap(o) for o in pool]
+                    after = [snap(o) for o in pool + passive]
                     if after != before:
                         idx = [i for i, (a, b_) in enumerate(zip(after, before)) if a != b_][0]
                         what = 'hash' if after[idx][0] == before[idx][0] and after[idx][1] == before[idx][1] else ('metadata' if after[idx][0] == before[idx][0] else 'structure or stored types')
                         problems.append((f'{name.split("=")[0].rstrip("(")} changed an existing AST ({what})',
-                                         f'{label}: after [{" ; ".join(hist)}] the call {name} on {type(target).__name__} «{_s(target)}» changed «{_s(pool[idx])}» ({type(pool[idx]).__name__})'))
+                                         f'{label}: after [{" ; ".join(hist)}] the call {name} on {type(target).__name__} «{_s(target)}» changed «{_s((pool + passive)[idx])}» ({type((pool + passive)[idx]).__name__})'))
                         return problems  # the pool is corrupted: stop exploring this base
                     new = []
                     for o in flatten_results(res):
